@@ -13,7 +13,8 @@ on every run (extract/store.go → Generated/StoreFacts.lean).
 * `section.Range` (ids collected in a B-tree keyed by id: each document once, in id order), `section.Scan` (which
   indexes are walked, the two walks and their stop tests).
 * `store.Find`: `s.find(f)` sees the filter only and its scan loop has no `break`; sort; then the window arithmetic,
-  extracted statement by statement and run on naturals (`C12.windowBy`) – equal to the model's `window`.
+  extracted statement by statement and run on 64-bit integers with explicit wrap-around (`C12.windowBy`) – equal to the
+  model's `window` for every skip, limit and length an `int` can hold; the earlier shape overflowed (`C12.pinned_window_overflows`).
 * `patch` works on `doc.Mutable()` and returns `doc.Immutable()`.
 * outlines of the functions the model follows statement by statement (`conflict`, `index`, `unindex`, `segment.Index`
   with its rollback, `section.Scan`, `section.Range`, `Find`, `find`, `patch`).
@@ -226,27 +227,40 @@ theorem C12.range_dedups_as_modelled (docs : List (Val × PList)) (cur : Section
 
 /-! ## `store.Find` -/
 
-/-- `if x > len(docs) { x = len(docs) }` and `if x == 0 { x = len(docs) }` on naturals -/
-def C12.clampTo (n x : Nat) : Nat := if x > n then n else x
-def C12.defaultTo (n x : Nat) : Nat := if x = 0 then n else x
-/-- `docs = docs[a:b]` (Go panics unless a ≤ b ≤ len) -/
-def C12.sliceDocs (a b : Nat) (docs : List PList) : Option (List PList) :=
-  if a ≤ b ∧ b ≤ docs.length then some ((docs.take b).drop a) else none
+/-! Go's `int` (amd64) is a 64-bit two's-complement number: the statements are run on `Int` with every addition and
+subtraction reduced by `wrap`, so an overflow is *visible* to the interpreter (an earlier version of this tie ran the
+statements on naturals and could not see the overflow of `limit = skip + limit`, which panicked for `Skip > 0` and a
+`Limit` near `math.MaxInt`; `C12.pinned_window_overflows` replays it). -/
+
+/-- the value an `int` operation yields for the mathematical result `x` -/
+def C12.wrap (x : Int) : Int := (x + 9223372036854775808) % 18446744073709551616 - 9223372036854775808
+
+/-- `if x > len(docs) { x = len(docs) }` and `if x == 0 { x = len(docs) }` -/
+def C12.clampTo (n x : Int) : Int := if x > n then n else x
+def C12.defaultTo (n x : Int) : Int := if x = 0 then n else x
+/-- `if x == 0 || x > len(docs)-y { x = len(docs) - y }` -/
+def C12.restTo (n x y : Int) : Int := if x = 0 ∨ x > C12.wrap (n - y) then C12.wrap (n - y) else x
+/-- `docs = docs[a:b]` (Go panics unless 0 ≤ a ≤ b ≤ len) -/
+def C12.sliceDocs (a b : Int) (docs : List PList) : Option (List PList) :=
+  if 0 ≤ a ∧ a ≤ b ∧ b ≤ docs.length then some ((docs.take b.toNat).drop a.toNat) else none
 
 inductive C12.WStep where
-  | next (skip limit : Nat)
+  | next (skip limit : Int)
   | done (r : Option (List PList))
 
-/-- one statement of `Find` between the sort and the return, on (skip, limit) -/
-def C12.windowStep (st : String) (skip limit : Nat) (docs : List PList) : C12.WStep :=
+/-- one statement of `Find` between the sort and the return, on (skip, limit); `none` = panic or unknown statement.
+Both the present statements and those of the earlier shape are interpreted. -/
+def C12.windowStep (st : String) (skip limit : Int) (docs : List PList) : C12.WStep :=
   if st = "clamp:skip" then .next (C12.clampTo docs.length skip) limit
+  else if st = "rest:limit,skip" then .next skip (C12.restTo docs.length limit skip)
+  else if st = "slice:skip,skip + limit" then .done (C12.sliceDocs skip (C12.wrap (skip + limit)) docs)
   else if st = "default:limit" then .next skip (C12.defaultTo docs.length limit)
-  else if st = "add:limit,skip" then .next skip (skip + limit)
+  else if st = "add:limit,skip" then .next skip (C12.wrap (skip + limit))
   else if st = "clamp:limit" then .next skip (C12.clampTo docs.length limit)
   else if st = "slice:skip,limit" then .done (C12.sliceDocs skip limit docs)
   else .done none
 
-def C12.windowBy : List String → Nat → Nat → List PList → Option (List PList)
+def C12.windowBy : List String → Int → Int → List PList → Option (List PList)
   | [], _, _, _ => none
   | st :: rest, skip, limit, docs =>
     match C12.windowStep st skip limit docs with
@@ -256,9 +270,9 @@ def C12.windowBy : List String → Nat → Nat → List PList → Option (List P
 theorem C12.find_facts :
     findHeads = ["s.mu.RLock()", "defer s.mu.RUnlock()", "var limit int", "var skip int", "var sort types.Map",
       "for _, opt := range opts", "var f types.Map", "if filter != nil", "docs, err := s.find(f)", "if err != nil",
-      "if sort != nil", "if skip > len(docs)", "if limit == 0", "limit = skip + limit", "if limit > len(docs)",
-      "docs = docs[skip:limit]", "return newCursor(docs), nil"] ∧
-    findWindow = ["clamp:skip", "default:limit", "add:limit,skip", "clamp:limit", "slice:skip,limit"] ∧
+      "if sort != nil", "if skip > len(docs)", "if limit == 0 || limit > len(docs)-skip",
+      "docs = docs[skip : skip+limit]", "return newCursor(docs), nil"] ∧
+    findWindow = ["clamp:skip", "rest:limit,skip", "slice:skip,skip + limit"] ∧
     findCalls = [("Update", "f"), ("Delete", "f"), ("Find", "f")] ∧
     findInnerHeads = ["if err := validate(filter); err != nil", "plan, err := s.explain(filter)", "if err != nil",
       "scan := scanner(s.segment)", "for plan != nil", "var docs []types.Map", "for _, doc := range scan.Range()",
@@ -268,19 +282,93 @@ theorem C12.find_facts :
        "  return nil, err", "else", "  if ok", "    docs = append(docs, doc)"]⟩ := by
   decide
 
+/-- skip after the clamp, limit after the cut – as naturals -/
+def C12.skipN (n skip : Nat) : Nat := if skip > n then n else skip
+def C12.limitN (n skip limit : Nat) : Nat :=
+  if limit = 0 ∨ limit > n - C12.skipN n skip then n - C12.skipN n skip else limit
+
+theorem C12.skipN_le (n skip : Nat) : C12.skipN n skip ≤ n := by unfold C12.skipN; split <;> omega
+
+theorem C12.clampTo_nat (n skip : Nat) : C12.clampTo n skip = (C12.skipN n skip : Int) := by
+  unfold C12.clampTo C12.skipN
+  by_cases h : skip > n
+  · rw [if_pos (by omega), if_pos h]
+  · rw [if_neg (by omega), if_neg h]
+
+theorem C12.restTo_nat (n skip limit : Nat) (hn : n < 9223372036854775808) (hl : limit < 9223372036854775808) :
+    C12.restTo n limit (C12.skipN n skip : Int) = (C12.limitN n skip limit : Int) := by
+  have hle := C12.skipN_le n skip
+  unfold C12.restTo C12.limitN C12.wrap
+  generalize C12.skipN n skip = a at hle ⊢
+  have hw : ((n : Int) - a + 9223372036854775808) % 18446744073709551616 - 9223372036854775808 = ((n - a : Nat) : Int) := by
+    omega
+  rw [hw]
+  by_cases h : limit = 0 ∨ limit > n - a
+  · rw [if_pos h, if_pos (by omega)]
+  · rw [if_neg h, if_neg (by omega)]
+
+theorem C12.limitN_sum (n skip limit : Nat) : C12.skipN n skip + C12.limitN n skip limit ≤ n := by
+  have := C12.skipN_le n skip
+  unfold C12.limitN
+  split <;> omega
+
+theorem C12.window_nat (skip limit : Nat) (docs : List PList) :
+    window skip limit docs =
+      (docs.take (C12.skipN docs.length skip + C12.limitN docs.length skip limit)).drop (C12.skipN docs.length skip) := by
+  unfold window C12.limitN C12.skipN
+  simp only
+  generalize docs.length = n
+  have e1 : (if (if skip > n then n else skip) + (if limit = 0 then n else limit) > n then n
+      else (if skip > n then n else skip) + (if limit = 0 then n else limit)) =
+      (if skip > n then n else skip) +
+        (if limit = 0 ∨ limit > n - (if skip > n then n else skip) then n - (if skip > n then n else skip) else limit) := by
+    by_cases h1 : skip > n <;> by_cases h2 : limit = 0
+    · simp [h1, h2]
+    · simp only [if_pos h1, if_neg h2]
+      rw [if_pos (by omega), if_pos (by omega)]; omega
+    · simp only [if_neg h1, if_pos h2]
+      rw [if_pos (Or.inl h2)]; split <;> omega
+    · simp only [if_neg h1, if_neg h2]
+      by_cases h3 : limit > n - skip
+      · rw [if_pos (by omega), if_pos (Or.inr h3)]; omega
+      · rw [if_neg (by omega), if_neg (by omega)]
+  rw [e1]
+
 /-- `Find` evaluates the filter over the whole scan (`s.find(f)` takes the filter only, its loop has no `break`),
-sorts, and only then applies skip and limit; the window arithmetic, run statement by statement, is the model's `window`. -/
-theorem C12.find_window_as_modelled (skip limit : Nat) (docs : List PList) :
+sorts, and only then applies skip and limit; the window arithmetic, run statement by statement on 64-bit integers
+(`wrap`), is the model's `window` for **every** skip and limit an `int` can hold (the option loop of `Find` keeps only
+positive values) and every slice length – including `Limit = math.MaxInt` with `Skip > 0`. -/
+theorem C12.find_window_as_modelled (skip limit : Nat) (docs : List PList)
+    (_hs : skip < 9223372036854775808) (hl : limit < 9223372036854775808) (hd : docs.length < 9223372036854775808) :
     findCalls = [("Update", "f"), ("Delete", "f"), ("Find", "f")] ∧ findScanLoop.hasBreak = false ∧
     C12.windowBy findWindow skip limit docs = some (window skip limit docs) := by
-  have h : findWindow = ["clamp:skip", "default:limit", "add:limit,skip", "clamp:limit", "slice:skip,limit"] := by decide
+  have h : findWindow = ["clamp:skip", "rest:limit,skip", "slice:skip,skip + limit"] := by decide
   refine ⟨by decide, by decide, ?_⟩
   rw [h]
   simp only [C12.windowBy, C12.windowStep]
   simp (config := { decide := true }) only [if_true, if_false]
-  unfold window C12.sliceDocs C12.clampTo C12.defaultTo
-  simp only
-  split <;> split <;> split <;> simp_all <;> omega
+  rw [C12.clampTo_nat, C12.restTo_nat _ _ _ hd hl]
+  have hsum := C12.limitN_sum docs.length skip limit
+  have hw : C12.wrap ((C12.skipN docs.length skip : Int) + (C12.limitN docs.length skip limit : Int)) =
+      ((C12.skipN docs.length skip + C12.limitN docs.length skip limit : Nat) : Int) := by
+    unfold C12.wrap; omega
+  rw [hw]
+  unfold C12.sliceDocs
+  rw [if_pos (by omega)]
+  simp only [Int.toNat_natCast]
+  rw [C12.window_nat]
+
+/-- the pinned shape of the window arithmetic (`clamp skip; default limit; limit = skip + limit; clamp limit;
+docs[skip:limit]`) on three documents with `Skip = 1`, `Limit = math.MaxInt`: the sum wraps to a negative number and the
+slice expression panics (`none`), where the model's `window` – and the present statements – return the last two
+documents. -/
+theorem C12.pinned_window_overflows :
+    let docs : List PList := [.nil, .cons (.str [97]) .nil .nil, .cons (.str [98]) .nil .nil]
+    (C12.windowBy ["clamp:skip", "default:limit", "add:limit,skip", "clamp:limit", "slice:skip,limit"]
+        1 9223372036854775807 docs).isNone = true ∧
+    (C12.windowBy findWindow 1 9223372036854775807 docs).isSome = true ∧
+    (window 1 9223372036854775807 docs).length = 2 := by
+  decide
 
 /-! ## `patch` -/
 
@@ -525,12 +613,9 @@ theorem C12.find_patch_outline_as_modelled :
       "    return 0",
       "if skip > len(docs)",
       "  skip = len(docs)",
-      "if limit == 0",
-      "  limit = len(docs)",
-      "limit = skip + limit",
-      "if limit > len(docs)",
-      "  limit = len(docs)",
-      "docs = docs[skip:limit]",
+      "if limit == 0 || limit > len(docs)-skip",
+      "  limit = len(docs) - skip",
+      "docs = docs[skip : skip+limit]",
       "return newCursor(docs), nil"] ∧
     outline_store_find = [
       "if err := validate(filter); err != nil",
